@@ -318,6 +318,10 @@ func (p *Parser) parseExpression(precedence ast.Priority) ast.Node {
 		return nil
 	}
 	leftExp := prefix()
+	if _, isComment := leftExp.(*ast.Comment); isComment {
+		// A comment is never the left operand of what follows it: `// c` then `-1` on the next line is not `comment - 1`.
+		return leftExp
+	}
 	if p.peekTokenIs(token.LAMBDA) && precedence == ast.LAMBDA { // allow lambda chaining without parentheses in input.
 		p.nextToken()
 		return p.parseLambdaMulti(leftExp)
